@@ -1,3 +1,4 @@
--- This module serves as the root of the `EtkVerif` library.
--- Import modules here that should be built as part of the library.
-import EtkVerif.Basic
+-- Root of the `EtkVerif` library: every property file.
+import EtkVerif.Props.C17
+import EtkVerif.Props.C04
+import EtkVerif.Props.C16
